@@ -39,6 +39,20 @@ EXTRA={
             '//@ ensures [C04] overflow.iff: gParsedOK ==> ((ve == VALUE_OVERFLOW) == addOverflows64(gParsed, delta))',
             '//@ ensures [C04] sum: gParsedOK && ve != VALUE_OVERFLOW ==> value == gParsed + delta && ve == VALUE_EXISTS',
             '//@ ensures [C04] newfield: ve == VALUE_DOESNT_EXIST ==> value == delta'],
+ 'setHashTableWorker': ['//@ ghostentry gHashOptions = options',
+            '//@ loop "for idx, fieldName := range fieldNames" invariant [C04] nx.kept: flagHasOne(options, SET_NOT_EXIST) ==> allstr(q, !old(m.vdom[q]) || m.vval[q] == old(m.vval[q]))',
+            '//@ loop "for idx, fieldName := range fieldNames" invariant [C04] grows: allstr(q, !old(m.vdom[q]) || m.vdom[q])',
+            '//@ loop "for idx, fieldName := range fieldNames" invariant [C04] stored: allsel(i, 0, ri1, m.vdom[fieldNames[i]])',
+            '//@ loop "for idx, fieldName := range fieldNames" invariant m != nil',
+            '//@ ensures internal [C04] nx.kept: !wrongType && flagHasOne(options, SET_NOT_EXIST) ==> allstr(q, !old(m.vdom[q]) || m.vval[q] == old(m.vval[q]))',
+            '//@ ensures internal [C04] stored: !wrongType ==> allsel(i, 0, len(fieldNames), m.vdom[fieldNames[i]])',
+            '//@ ensures [C04] options.seen: gHashOptions == options',
+            '//@ requires [C13] samelen: len(values) >= len(fieldNames)'],
+ 'setRange': ['//@ requires [C13,C02] offset.range: 0 <= offset && offset <= 536870912 && len(substring) <= 536870912 - offset'],
+ 'setHashTableFields': ['//@ requires [C13] samelen: len(values) >= len(fieldNames)'],
+ 'deleteHashTableFields': ['//@ loop "for _, fieldName := range fieldNames" invariant [C04] gone: allsel(i, 0, ri1, !m.vdom[fieldNames[i]])',
+            '//@ loop "for _, fieldName := range fieldNames" invariant m != nil',
+            '//@ assertbefore "break" [C04] emptied: m.count == 0 && !dsc.ds.data.vdom[keyName]'],
  'dictScanUnlocked': ['//@ callback isMatch','//@ pure','//@ endcallback'],
  'changeBits': ['//@ requires len(srcKeyNames) >= 1','//@ loop 1 invariant len(values) == ri1','//@ loop 2 invariant ri2 > 0 ==> resultBytes != nil'],
 }
